@@ -1,6 +1,6 @@
 (* C19/Proofs.v -- lemmas about the geometry model at R (rt := sqrt). *)
 From Coq Require Import ZArith QArith Reals Lra Lia Psatz Nsatz List Bool.
-From Verif Require Import Base.Num C19.Model.
+From Verif Require Import Base.Num C19.Model Gen.GeometryFormulas.
 Import ListNotations.
 Local Open Scope R_scope.
 
@@ -1320,6 +1320,46 @@ Proof.
   cbn [c_det cone_default_curved]. destruct p as [[[u v] [cu su]] [cv sv]].
   destruct sph; cbn [surf3]; unfold curved_transl, frame0; numR;
     rewrite !(curved_frame_image m _ _ _ Hm E1 E3), !(mv3_add m), !(mv3_scal m); reflexivity.
+Qed.
+
+(* ============ the hand-written model uses the formulas REGENERATED from the source ============ *)
+(* Gen/GeometryFormulas.v is re-emitted from odl/tomo/util/utility.py and odl/tomo/geometry/detector.py on every
+   run; a changed entry of a matrix literal or of a surface formula breaks these proofs. *)
+Lemma model_is_generated_rotations :
+  (forall c s : R, euler2 (c, s) = gen_euler2 c s) /\
+  (forall c1 s1 c2 s2 c3 s3 : R, euler3 (c1, s1) (c2, s2) (c3, s3) = gen_euler3 c1 s1 c2 s2 c3 s3) /\
+  (forall x y z c s : R, axis_rot (x, y, z) (c, s) = gen_axis_rot x y z c s).
+Proof.
+  repeat split; intros; unfold gen_euler2, gen_euler3, gen_axis_rot; unf; pair_eq; ring.
+Qed.
+Lemma generated_rotations_are_rotations :
+  (forall c s : R, c * c + s * s = 1 -> is_rot2 (gen_euler2 c s)) /\
+  (forall c1 s1 c2 s2 c3 s3 : R, c1 * c1 + s1 * s1 = 1 -> c2 * c2 + s2 * s2 = 1 -> c3 * c3 + s3 * s3 = 1 ->
+     is_rot3 (gen_euler3 c1 s1 c2 s2 c3 s3)) /\
+  (forall x y z c s : R, x * x + y * y + z * z = 1 -> c * c + s * s = 1 -> is_rot3 (gen_axis_rot x y z c s)).
+Proof.
+  destruct model_is_generated_rotations as [E2 [E3 EA]]. repeat split; intros.
+  - rewrite <- E2. apply (proj1 (euler2_rot (c, s) H)).
+  - rewrite <- E2. apply (proj2 (euler2_rot (c, s) H)).
+  - rewrite <- E3. apply (proj1 (euler3_rot (c1, s1) (c2, s2) (c3, s3) H H0 H1)).
+  - rewrite <- E3. apply (proj2 (euler3_rot (c1, s1) (c2, s2) (c3, s3) H H0 H1)).
+  - rewrite <- EA. apply (proj1 (axis_rot_rot (x, y, z) (c, s) H H0)).
+  - rewrite <- EA. apply (proj2 (axis_rot_rot (x, y, z) (c, s) H H0)).
+Qed.
+Lemma model_is_generated_surfaces :
+  (forall (ax : V2) (r u cu su : R),
+     surf2 (Circ ax r) (u, (cu, su)) = add2 (mv2 (circ_rot ax) (gen_circ_surf cu su r)) (circ_transl ax r) /\
+     deriv2 (Circ ax r) (u, (cu, su)) = mv2 (circ_rot ax) (gen_circ_deriv cu su r)) /\
+  (forall (a0 a1 : V3) (r : R) (m : M3) (u v cu su cv sv : R),
+     surf3 (Cyl a0 a1 r m) (u, v, (cu, su), (cv, sv)) = add3 (mv3 m (gen_cyl_surf cu su v r)) (curved_transl r m) /\
+     deriv3 (Cyl a0 a1 r m) (u, v, (cu, su), (cv, sv)) = (mv3 m (gen_cyl_dphi cu su r), mv3 m (0, 0, 1))) /\
+  (forall (a0 a1 : V3) (r : R) (m : M3) (u v cu su cv sv : R),
+     surf3 (Sph a0 a1 r m) (u, v, (cu, su), (cv, sv)) = add3 (mv3 m (gen_sph_surf cu su cv sv r)) (curved_transl r m) /\
+     deriv3 (Sph a0 a1 r m) (u, v, (cu, su), (cv, sv)) =
+       (mv3 m (gen_sph_dphi cu su cv sv r), mv3 m (gen_sph_dtheta cu su cv sv r))).
+Proof.
+  repeat split; intros; unfold surf2, deriv2, surf3, deriv3, gen_circ_surf, gen_circ_deriv, gen_cyl_surf, gen_cyl_dphi,
+    gen_sph_surf, gen_sph_dphi, gen_sph_dtheta; repeat f_equal; unf; pair_eq; ring.
 Qed.
 
 (* ---- statements assembled for Props.v ---- *)
